@@ -172,6 +172,9 @@ where
     msm_scalars.push(C::Scalar::from(1));
     msm_scalars.push(r);
 
+    #[cfg(feature = "verif-hooks")]
+    crate::verif_hooks::ipa_log_msm_scalars(&msm_scalars);
+
     if (!inner_product::<C>(&msm_scalars, &msm_bases).to_affine().is_identity()).into() {
         return Err(Error::Opening);
     }
